@@ -11,7 +11,7 @@ from harness import surface
 
 GEN = ['Gen/GenConsts.v', 'Gen/GenRoutes.v', 'Gen/GenSurfaceSpec.v']
 DEPS = {'C14': GEN + ['Spec/Surface.v', 'Proofs/C14.v', 'Gen/GenSchemas.v', 'Model/Json.v', 'Model/Decode.v', 'Spec/Fields.v',
-                      'Proofs/C14f.v'],
+                      'Proofs/C14f.v', 'Spec/RespFields.v', 'Proofs/C14r.v'],
         'C16': GEN + ['Spec/Surface.v', 'Spec/Pipeline.v', 'Proofs/C16.v']}
 
 
@@ -137,6 +137,45 @@ def run_c14(tier, out):
             sc_err = 'schema choice stream: %s' % str(exc)[-500:]
     else:
         sc_err = 'Spec/Fields.v did not build'
+    # response members (body members by path, headers, status) per operation and version: the serialiser model
+    # Spec/RespFields.v:resp_members that C14_response_fields / C14_no_undocumented_response_member compare with the documented
+    # table, against one real successful request per operation and version
+    rf_n, rf_err, rf_known = 0, None, {}
+    rf_t = common.Timer()
+    if common.vo_fresh('Spec/RespFields.v'):
+        try:
+            from harness import respfields
+            rf_n, rf_bad, rf_err = respfields.run('C14_%s' % tier)
+            rf_seen = set()
+            for payload, text in rf_bad:
+                key = (payload['route'], payload['method'], payload.get('producer'))
+                if key in rf_seen or len(rf_seen) >= 5:
+                    continue
+                rf_seen.add(key)
+                payload['broken'] = ps.get('broken')
+                out.violation(payload, text)
+                viols.append((payload, text))
+            # members the model emits and the documented table does not give the operation (C14_no_undocumented_response_member
+            # allows exactly Spec/RespFields.v:resp_known_extra): each must be a recorded finding
+            if not rf_err:
+                for route, method, member, from_v in respfields.undocumented(respfields.model_table('C14u_%s' % tier)):
+                    f = known_match('response-undocumented', route=route, method=method, member=member)
+                    if f is not None:
+                        rf_known[f['what']] = rf_known.get(f['what'], 0) + 1
+                    else:
+                        payload = {'kind': 'response-undocumented', 'route': route, 'method': method, 'member': member,
+                                   'version': from_v}
+                        text = ('%s %s emits %s from 1.%d on; the documented table (spec/surface.json:response_fields) does not '
+                                'give the operation this member' % (method, route, member, from_v))
+                        out.violation(payload, text)
+                        viols.append((payload, text))
+        except Exception as exc:      # noqa
+            rf_err = 'response members stream: %s' % str(exc)[-500:]
+    else:
+        rf_err = 'Spec/RespFields.v did not build'
+    for what, n in rf_known.items():
+        out.known_finding('%s [%d members]' % (what, n))
+    rf_secs = rf_t.s()
     if broken and not viols:
         what = ps['error'] or ('hygiene: %s' % hyg[:5] if hyg else 'translator failed: %s' % tlog[-600:])
         out.violation({'kind': 'proof-broken', 'theorem_or_file': ps.get('broken') or 'Props/C14.v', 'detail': what,
@@ -146,9 +185,14 @@ def run_c14(tier, out):
         out.violation({'kind': 'correspondence-broken', 'stream': 'schema choice', 'error': sc_err},
                       'the schema an operation validates with is not the one the theorem C14_fields reads: %s' % sc_err[:300],
                       no_input=True)
+    elif rf_err and not viols:
+        out.violation({'kind': 'correspondence-broken', 'stream': 'response members', 'error': rf_err},
+                      'the members the service answers with cannot be compared with Spec/RespFields.v:resp_members: %s'
+                      % rf_err[:300], no_input=True)
     obligations, discharged = evidence_proof(ps)
     cov = {'obligations': obligations, 'discharged': discharged,
-           'schema_choice_facts': sc_n, 'correspondence_error': sc_err,
+           'schema_choice_facts': sc_n, 'correspondence_error': sc_err or rf_err,
+           'response_member_checks': rf_n, 'response_member_seconds': round(rf_secs, 1), 'response_documented_members': len(surface.SPEC.get('response_fields', [])),
            'checker_cmd': 'cd /verif/coq && make -k && coqc -Q . PV Props/C14.v',
            'trusted_base': common.TRUSTED_BASE + ['documented surface transcribed by hand into /verif/spec/surface.json',
                                                   'microversion_parse negotiation is modelled (Spec/Surface.v negotiate)'],
@@ -156,12 +200,14 @@ def run_c14(tier, out):
            'proof_error': ps['error'], 'hygiene_hits': hyg,
            'evaluations': stats['n'] + fstats['n'], 'distinct_nontrivial': len(stats['distinct']),
            'rule': 'exhaustive: 40 microversions x 19 documented routes + 1 unknown x 5 methods on a populated state '
-                   '(%d probes); %d feature probes x 40 versions (%d); %d negotiation headers; distinct = distinct '
+                   '(%d probes); %d feature probes x 40 versions (%d); %d negotiation headers; %d response-member checks (one '
+                   'successful request per operation and version + 7 error producers per version: members / headers / status '
+                   'against Spec/RespFields.v:resp_members); distinct = distinct '
                    '(route, method, version, status) / (feature, version, presence) outcomes; all are non-trivial'
-                   % (n_av, len(surface.FEATURES), fstats['n'], len(NEGOTIATION)),
-           'exhaustive': True, 'samples': samples, 'traces_validated_against_impl': n_av + fstats['n'],
+                   % (n_av, len(surface.FEATURES), fstats['n'], len(NEGOTIATION), rf_n),
+           'exhaustive': True, 'samples': samples, 'traces_validated_against_impl': n_av + fstats['n'] + rf_n,
            'status_histogram': {str(k): v for k, v in sorted(stats['status'].items())},
-           'known_findings_seen': known_hits}
+           'known_findings_seen': dict(known_hits, **rf_known)}
     common.write_evidence('C14', tier, 'proof', cov, t.s(), len(out.violations),
                           assumptions=['noauth2 authentication with admin+service roles for probing'])
 
@@ -182,6 +228,15 @@ def replay_c14(path, out):
             if present != (v >= intro):
                 out.violation(p, 'feature %r (introduced 1.%d) is %s at 1.%d' % (name, intro, 'present' if present else 'absent', v))
         surface.feature_matrix([p['version']], on_feature, feats)
+    elif p.get('kind') == 'response-members':
+        from harness import respfields
+        n, bad, err = respfields.run('C14_replay', versions=[p['version']], only=(p['route'], p['method']))
+        for payload, text in bad:
+            if payload.get('producer') == p.get('producer'):
+                out.violation(p, text)
+                break
+        if err:
+            out.violation(p, err, no_input=True)
     else:
         run_c14('quick', out)
 
